@@ -676,6 +676,15 @@ func projEmbedded(t *Term, name string, v ssa.Value) *Term {
 
 // normField applies the field-projection normalisations.
 func normField(base *Term, name string, v ssa.Value) *Term {
+	// fields of a coin built by sdk.NewCoin(denom, amount)
+	if base.Op == "call" && strings.HasSuffix(base.Name, sdkPath+".NewCoin") && len(base.Args) == 2 {
+		switch name {
+		case "Denom":
+			return base.Args[0]
+		case "Amount":
+			return base.Args[1]
+		}
+	}
 	switch base.Op {
 	case "new", "deref":
 		return normField(base.Args[0], name, v)
